@@ -161,3 +161,21 @@ def const_str_set(body, include_promoted=True):
         for p in body.promoted:
             scan(p)
     return out
+
+
+def agg_variant_of(du, op, depth=0):
+    """(adt, variant) when the operand is (a move/copy of) a local whose only definition is an ADT aggregate"""
+    if op is None or depth > 4:
+        return None
+    pl = op.get("mv") or op.get("cp")
+    if pl is None or pl["p"]:
+        return None
+    defs = du.defs.get(pl["l"], [])
+    if len(defs) != 1 or defs[0][0] != "assign":
+        return None
+    rv = defs[0][3]["rv"]
+    if rv["k"] == "agg" and rv["ak"] == "adt":
+        return (norm(rv["adt"]), rv["variant"])
+    if rv["k"] == "use":
+        return agg_variant_of(du, rv["a"], depth + 1)
+    return None
